@@ -1143,6 +1143,35 @@ func c16MetaLookupTable(w *World, ob *Ob) {
 // negative values (e.g. the limit of a range operation nested in a transaction, which no
 // handler validates).
 func c16Allocations(w *World, ob *Ob, reach map[*ssa.Function]bool) {
+	// the gzip reader parses the header when it is built: a body that is not a gzip stream gives
+	// a nil reader and an error - the error is tested before the reader is handed to gRPC
+	for _, fn := range w.ModFuncs() {
+		if fn.Package() == nil && fn.Parent() == nil {
+			continue
+		}
+		eachInstr(fn, func(in ssa.Instruction) {
+			c := plainCall(in)
+			if c == nil || !strings.HasSuffix(CalleeName(c), "/gzip.NewReader") || !inModule(fn) {
+				return
+			}
+			ob.Site(in.Pos(), "gzip reader built in "+FnName(fn))
+			tested := false
+			if v, ok := in.(ssa.Value); ok && v.Referrers() != nil {
+				for _, rr := range *v.Referrers() {
+					if ex, ok := rr.(*ssa.Extract); ok && ex.Index == 1 && ex.Referrers() != nil {
+						for _, u := range *ex.Referrers() {
+							if _, isDbg := u.(*ssa.DebugRef); !isDbg {
+								tested = true
+							}
+						}
+					}
+				}
+			}
+			if !tested {
+				ob.Violate("gzip-reader-error-ignored@"+FnName(fn), in.Pos(), FnName(fn)+" ignores the error of gzip.NewReader: for a request body that is not a gzip stream the reader is nil, and the first Read on it panics the handler goroutine - the process dies")
+			}
+		})
+	}
 	n := 0
 	for _, fn := range sortedFuncs(reach) {
 		if isGenerated(fn) {
